@@ -44,7 +44,7 @@ def config_c(ctx, rules):
 
 
 def run_vtry(patch, prop):
-    env = dict(os.environ, VTRY_CACHE=os.path.join(VERIF, ".cache", "selftest"))
+    env = dict(os.environ, VTRY_CACHE=os.path.join(VERIF, ".cache", "selftest-%s" % prop))
     env.pop("VERIF_TIER", None)
     r = subprocess.run([os.path.join(VERIF, "bin", "vtry"), patch, prop], stdout=subprocess.PIPE,
                        stderr=subprocess.STDOUT, text=True, env=env)
